@@ -59,8 +59,12 @@ def _rule_in_traceback(e: BaseException):
     return rule
 
 
+LAST_RAW: list = []      # the Violation objects of the last lint() call (for the output-stage check)
+
+
 def lint(root: Path, config: dict, paths: list[Path], mode: str, faillog: Path):
     """one run of the implementation; returns (violations | None, crash | None, failures, cpu seconds)"""
+    LAST_RAW.clear()
     from src.orchestrator.core import Orchestrator
     if faillog.exists():
         faillog.unlink()
@@ -79,7 +83,54 @@ def lint(root: Path, config: dict, paths: list[Path], mode: str, faillog: Path):
         if isinstance(e, (KeyboardInterrupt, SystemExit)):
             raise
     cpu = time.process_time() - t0
+    LAST_RAW.extend(vs or [])
     return (None if vs is None else _tuples(vs, root)), crash, _read_log(faillog), cpu
+
+
+def output_stage(res: dict) -> None:
+    """the violations of the run just made, through the real output stage in every format (exit status, well-formed document)"""
+    from harness.props import c11_output
+    try:
+        probs = c11_output.output_stage_problems(list(LAST_RAW))
+    except BaseException as e:  # noqa: BLE001
+        probs = [{"fmt": "?", "problem": f"harness: output-stage check raised {type(e).__name__}: {str(e)[:200]}"}]
+        if isinstance(e, (KeyboardInterrupt, SystemExit)):
+            raise
+    res["output_checked"] = len(LAST_RAW)
+    if probs:
+        res["output_problems"] = probs[:8]
+
+
+def layout_case(case: dict, base: Path, faillog: Path) -> dict:
+    """a run whose whole file list is given: [(name, data, is_offender)] in lint order; baseline = the same list without the offenders"""
+    d = base / "layout"
+    if d.exists():
+        for p in d.iterdir():
+            p.unlink()
+    d.mkdir(parents=True, exist_ok=True)
+    files = [(n, base64.b64decode(b), bool(off)) for n, b, off in case["layout"]]
+    for n, b, _ in files:
+        (d / n).write_bytes(b)
+    offenders = {n for n, _, off in files if off}
+    cfg = CONFIGS[case["config"]]
+    vs, crash, fails, cpu = lint(d, cfg, [d / n for n, _, _ in files], "files", faillog)
+    res = {"id": case["id"], "crash": crash, "failures": fails, "cpu": round(cpu, 3), "layout": True}
+    output_stage(res)
+    bvs, bcrash, bfails, _ = lint(d, cfg, [d / n for n, _, off in files if not off], "files", faillog)
+    if bcrash or bfails or bvs is None:
+        res["baseline_problem"] = {"crash": bcrash, "failures": bfails}
+    if vs is not None and bvs is not None:
+        sib_vs = [v for v in vs if v[1] not in offenders]
+        res["own"] = len(vs) - len(sib_vs)
+        res["own_rules"] = sorted({v[0] for v in vs if v[1] in offenders})
+        res["siblings_equal"] = sib_vs == bvs
+        if not res["siblings_equal"]:
+            res["sib_missing"] = [v for v in bvs if v not in sib_vs][:5]
+            res["sib_extra"] = [v for v in sib_vs if v not in bvs][:5]
+        res["cross_families"] = sorted({(v[0] + (":constant" if v[4].startswith("Duplicate constant") else "")) for v in sib_vs
+                                        if v[0].startswith(("dry.", "stringly-typed."))})
+        res["base_cross"] = sorted({v[0] for v in bvs if v[0].startswith(("dry.", "stringly-typed."))})
+    return res
 
 
 def slow_rules(root: Path, config: dict, path: Path, limit: float):
@@ -128,6 +179,10 @@ def main(jobs_path: str, out_path: str) -> int:
             out.flush()
 
         for case in job["cases"]:
+            if case.get("layout") is not None:
+                emit({"start": case["id"]})
+                emit(layout_case(case, root.parent, faillog))
+                continue
             ck, mode = case["config"], case["mode"]
             bkey = ck + "/" + mode
             if bkey not in baselines:
@@ -151,11 +206,13 @@ def main(jobs_path: str, out_path: str) -> int:
             t0 = time.time()
             vs, crash, fails, cpu = lint(root, CONFIGS[ck], paths, mode, faillog)
             wall = time.time() - t0
+            out_res: dict = {}
+            output_stage(out_res)
             # the `hang` clause, calibrated in this run: `factor` times what a healthy file set of the same total size costs here and now
             expected = t_ref[bkey] * (1.0 + len(base64.b64decode(case["data"])) / max(1, sib_bytes))
             limit = factor * expected
             res = {"id": case["id"], "crash": crash, "failures": fails, "cpu": round(cpu, 3), "wall": round(wall, 3),
-                   "t_ref": round(t_ref[bkey], 3), "expected": round(expected, 3), "cpu_limit": round(limit, 2)}
+                   "t_ref": round(t_ref[bkey], 3), "expected": round(expected, 3), "cpu_limit": round(limit, 2), **out_res}
             if vs is not None:
                 sib_vs = [v for v in vs if v[1] != case["name"]]
                 res["own"] = len(vs) - len(sib_vs)
